@@ -94,6 +94,9 @@ func Parts(c *core.C, arm Arm) []ksim.Part {
 		// MsgTransfer's "entire balance", v1 timeout by height and by timestamp, MsgTransfer{use_aliasing}, the slashed native a/b
 		mk("2c/macro/fresh/amounts-timeouts-slash-denom", 6+d, 0.2, &TW{Sync: true, SendFrom: []int{0}, Routes: []int{RV1, RMsgAlias}, Amounts: []int{1}, Timeouts: []int{ToNext, ToNextTime},
 			MaxPkts: 2, MaxCommits: mc, NoAck: true}),
+		// raw MsgSendPacket whose ICS-20 amount is the literal 2^256-1 "entire balance" sentinel, next to ordinary one-unit sends
+		mk("2c/macro/fresh/literal-sentinel-amount", 5+d, 0.15, &TW{Sync: true, SendFrom: []int{0}, Routes: []int{RAlias, RClient}, Amounts: []int{0, 2}, Timeouts: []int{ToFar},
+			Bases: []string{Stake}, MaxPkts: 2, MaxCommits: mc}),
 		// B holds vouchers of A's stake (channel path and client path) and sends them back over every route, also across paths
 		mk("2c/macro/vouchers-return", 6+d, 0.45, &TW{Sync: true, Prefix: vouchersOnB(), SkipPrefix: true, SendFrom: []int{1}, Kind: 2, Routes: []int{RV1, RAlias, RClient}, Amounts: core.Pick(c, []int{0}, []int{0, 1}),
 			Timeouts: []int{ToNext}, MaxPkts: 2, MaxCommits: mc, Toggles: 1, ToggleOn: []int{0}, Relayer: 1}),
